@@ -21,6 +21,26 @@ chk("C01", "treemc", "model_checking",
     "Trusts the running kernel's openat2 as the definition of in-root resolution; kernel-without-openat2 simulated by seccomp ENOSYS; small-scope hypothesis (names a,b, depth 2, listed link bodies, paths <=2/3 components).",
     "explicit enumeration of a finite input space + reference model with trace conformance against kernel and implementation", "DESIGN.md 4/C01")
 
+SYS_NOTE = "Trusts ptrace syscall stops as the complete interface between libpathrs and the world (no vDSO-only or io_uring paths are used by the library); schedules/faults are explored at syscall boundaries only; races inside one syscall are the kernel's. Kernel-without-X simulated by ENOSYS."
+chk("C02", "sysmc", "model_checking",
+    "Stateless model checking of the real implementation at its syscall boundary: for every lookup scenario on the race tree, every attacker mutation of a stated alphabet is applied before every tree-relevant syscall (all schedules up to the deviation bound: 1 quick, 2 thorough), and every execution is judged by a containment oracle the supervisor computes itself (objects ever reachable from the root over all tree states of the run; link bodies read only from such objects). Failing schedules are replayed once before being reported.",
+    SYS_NOTE + " The attacker cannot move the root itself. POR: mutations only before namespace-touching syscalls.",
+    "deviation-bounded exhaustive schedule enumeration under a ptrace-controlled scheduler (stateless model checking of the implementation)", "DESIGN.md 4/C02")
+chk("C03", "sysmc", "model_checking",
+    "Same explorer as C02 over every mutating operation (create x types, create_file, mkdir_all, remove_*, rename, links): all attacker schedules up to the bound, plus a bounded-exhaustive sweep of argument spellings ('.', '..', absolute, through links pointing outside). Oracles: every mutating/opening syscall's directory descriptor must be an ever-inside inode, and whole-filesystem snapshots of the jail show that no never-inside object was removed/modified and nothing was created in a never-inside directory.",
+    SYS_NOTE, "deviation-bounded exhaustive schedule enumeration + exhaustive input sweep, syscall-level and snapshot oracles", "DESIGN.md 4/C03")
+chk("C05", "sysmc", "exploration",
+    "Every system call of every execution of a covering family (all operations, both backends, warm and cold lazies, with and without the new mount API, Rust and C entry points, success and error paths) is decoded under ptrace and checked against an allow-list automaton (single component + dirfd + no-follow; openat2 only with the confining resolve flags; follow only for a trailing procfs link in reopen/open_follow; O_CLOEXEC everywhere; O_NOCTTY unless O_PATH/O_DIRECTORY).",
+    SYS_NOTE + " The covering family is finite and listed in the evidence; a call site never exercised by it is not judged.",
+    "exhaustive per-transition invariant checking over enumerated executions (syscall-trace automaton)", "DESIGN.md 4/C05")
+chk("C10", "sysmc", "fault_enumeration",
+    "For every scenario and every syscall index of its trace, every errno of the class catalogue is injected once (ptrace: skip the call, return -errno), plus EAGAIN x{15,16,17} runs and descriptor exhaustion from each index on; oracle: no panic/abort/hang, error or a success whose post-condition holds, containment monitors silent, nothing outside the root changed, EAGAIN semantics (retried, 16 => safety violation).",
+    SYS_NOTE + " Quick tier injects at path-taking and descriptor-creating syscalls only (3 errnos per class); thorough at every syscall with the full catalogue.",
+    "exhaustive single-fault (and stated fault-sequence) enumeration over syscall traces", "DESIGN.md 4/C10")
+chk("C11", "sysmc", "fault_enumeration",
+    "The descriptor table (number -> object, close-on-exec) is listed before and after every call of the covering family (Rust and C API, both backends, warm/cold, three mount-API feature sets), under every single injected fault and every single attacker mutation of a scenario subset; it may differ only by the returned close-on-exec descriptor (cold runs: plus the process-lifetime procfs handle).",
+    SYS_NOTE, "exhaustive single-fault / single-mutation enumeration with a descriptor-table invariant", "DESIGN.md 4/C11")
+
 not_applicable = [
     {"property_id": "C18", "reason": "relates static artefacts (exported symbols, header, Go/Python binding declarations); there is no behaviour, schedule or state space to enumerate - deciding it is translation validation / static comparison, a different family (DESIGN.md section 5)"},
 ]
